@@ -70,6 +70,22 @@ fn main() {
             let code = driver::run_replay(&eng, prop, &PathBuf::from(&args[3]));
             std::process::exit(code);
         }
+        "enum" => {
+            let prop = args[2].clone();
+            let tier = args.get(3).cloned().unwrap_or_else(|| "quick".into());
+            let r = std::panic::catch_unwind(|| enumerate::run(&prop, &tier, driver::seed_from_env()));
+            match r {
+                Ok(c) => std::process::exit(c),
+                Err(e) => {
+                    let m = e.downcast_ref::<String>().cloned().or_else(|| e.downcast_ref::<&str>().map(|s| s.to_string()));
+                    println!("enumeration failed internally: {:?}", m);
+                    std::process::exit(2);
+                }
+            }
+        }
+        "enumpart" => {
+            enumerate::run_part(&args[2], &args[3], args[4].parse().unwrap(), args[5].parse().unwrap());
+        }
         "lockcheck" => {
             let prop = args[2].clone();
             let tier = args.get(3).cloned().unwrap_or_else(|| "quick".into());
